@@ -4,14 +4,16 @@
 (* create_binner() and a bin_model() of a piecewise-constant model.  TLC loads   *)
 (* the same rows with Observation!Load and decides the clauses (scaled ints).    *)
 (* Rationals of the 3-column mid-point widths in wavenumber space do not fit     *)
-(* 32 bits for lattice wavelengths: for 3 columns the trace decides order,       *)
-(* alignment, bracketing and reading A; both readings are decided exactly by     *)
-(* binding A.                                                                    *)
+(* 32 bits for lattice wavelengths: the trace decides order, alignment, edge     *)
+(* bracketing and (flag readA, set by the harness from exact fractions) reading  *)
+(* A of widths and edges; both readings are decided exactly by binding A.        *)
 EXTENDS Observation, IOUtils, TLCExt
 VARIABLE l
 TraceLog == ndJsonDeserialize(IOEnv.TRACE_FILE)
 
 AllClose(ms, S, rs, tol) == Len(ms) = Len(rs) /\ \A i \in 1..Len(ms) : Close(ms[i], S, rs[i], tol)
+\* lo, hi scaled by Se, c by S (S a multiple of Se); one rounding unit of slack
+Brackets(e, lo, c, hi) == LET q == e.S \div e.Se IN lo * q <= c + q /\ c <= hi * q + q
 Ok(e) ==
     LET n == Len(e.rows) IN
     /\ Loadable(e.rows, e.ncol)
@@ -23,10 +25,10 @@ Ok(e) ==
     /\ IF e.ncol = 4
        THEN /\ AllClose(e.mwid, e.Sw, LWnwA(e.rows, e.D, 4, "ok"), e.tol)
             /\ Len(e.med) = 2 * n
-            /\ \/ AllClose(e.med, e.Se, LEdA(e.rows, e.D, 4, "ok"), e.tol)
-               \/ AllClose(e.med, e.Se, LEdB(e.rows, e.D, 4, "ok"), e.tol)
+            /\ \A i \in 1..n : Brackets(e, e.med[2 * i - 1], e.mwn[i], e.med[2 * i])
+            /\ e.readA => AllClose(e.med, e.Se, LEdA(e.rows, e.D, 4, "ok"), e.tol)
        ELSE /\ Len(e.med) = n + 1
-            /\ \A i \in 1..n : e.med[i] * e.S <= e.mwn[i] * e.Se /\ e.mwn[i] * e.Se <= e.med[i + 1] * e.S   \* edges bracket centres
+            /\ \A i \in 1..n : Brackets(e, e.med[i], e.mwn[i], e.med[i + 1])     \* edges bracket centres
             /\ e.readA => /\ AllClose(e.mwid, e.Sw, LWnwA(e.rows, e.D, 3, "ok"), e.tol)
                           /\ AllClose(e.med, e.Se, LEdA(e.rows, e.D, 3, "ok"), e.tol)
     /\ e.bgrid = e.mwn /\ e.bwid = e.mwid                                    \* binner on exactly those centres and widths
